@@ -43,6 +43,7 @@ from vsim.harness import Peer
 from vsim.loop import run_async, wait_until
 from vsim.runner import Harness
 from vsim.sock import Delivery, SimNet, SimSocket
+from vsim.tls import TLSPeer, make_context
 from vsim.world import HarnessError, Violation, World
 
 PROPERTY = "C17"
@@ -144,6 +145,8 @@ class Plan:
         self.thrown = "parse"  # handle_thrown: parse | timeout
         self.setup: str | None = None  # TCP only
         self.setup_errno = errno.ENOTCONN
+        self.setup_k = 0  # TLS mid-handshake faults: index into the candidate byte offsets
+        self.hs_failed: bool | None = None  # TLS: True when the server cannot have completed the handshake
         self.start = 0  # in U
         self.pre = 0  # good requests before the fault trigger
         self.post = 0  # good requests after it
@@ -152,7 +155,7 @@ class Plan:
         self.fired_at_gens = 0
 
     def describe(self) -> dict:
-        return {k: getattr(self, k) for k in ("name", "position", "exc", "n", "post_send", "thrown", "setup", "setup_errno", "start", "pre", "post", "gap", "fired")}
+        return {k: getattr(self, k) for k in ("name", "position", "exc", "n", "post_send", "thrown", "setup", "setup_errno", "setup_k", "start", "pre", "post", "gap", "fired")}
 
 
 class ConnState:
@@ -178,6 +181,7 @@ def _draw_plan(world: World, name: str, positions: tuple[str, ...], setups: tupl
     if setups and kind >= 2:
         p.setup = setups[world.choose("f.setup", len(setups))]
         p.setup_errno = (errno.ENOTCONN, errno.EINVAL, errno.ECONNRESET)[world.choose("f.setup_errno", 3)]
+        p.setup_k = world.choose("f.setup_k", 8)
     if kind <= 2 or not setups:
         p.position = positions[world.choose("f.pos", len(positions))]
         p.exc = EXC_KINDS[world.choose("f.exc", len(EXC_KINDS))]
@@ -363,13 +367,28 @@ class Variant:
     name = "tcp"
     setups: tuple[str, ...] = ("getpeername", "setsockopt", "reset", "close")
 
+    def __init__(self, world: World):
+        """one instance per run; may draw run-wide parameters (TLS version...)"""
+        self.world = world
+
+    def notes(self) -> dict:
+        return {}
+
+    def draw_link(self, world: World, net: SimNet, faulty_run: bool) -> str:
+        return _draw_link(world, net, faulty_run)
+
+    def handshake_failed(self, plan: Plan, state: dict) -> bool:
+        """True when the transport-level set-up of this faulty connection cannot have completed on the server
+        side, i.e. no handler hook may have run for it"""
+        return plan.setup in ("getpeername", "setsockopt")
+
     def server_kwargs(self) -> dict:
         return {}
 
     def client_kwargs(self) -> dict:
         return {}
 
-    def raw_peer(self, world: World, sock: SimSocket) -> Any:
+    def raw_peer(self, world: World, sock: SimSocket, plan: Plan) -> Any:
         """scripted remote end used by the faulty client: needs write(bytes), fin(), reset(), close()"""
         return Peer(world, sock)
 
@@ -414,7 +433,121 @@ class PlainTCP(Variant):
     pass
 
 
-TCP_VARIANTS: dict[str, Variant] = {"tcp": PlainTCP()}
+# ------------------------------------------------------------------------------------------------------ TLS variant
+class _TLSRawPeer:
+    """faulty client over TLS: the reference ``vsim.tls.TLSPeer`` (stdlib ssl, not EasyNetwork code) with the
+    write/fin/reset/close surface the script needs"""
+
+    def __init__(self, world: World, sock: SimSocket, version: str):
+        self.world = world
+        self.sock = sock
+        self.tls = TLSPeer(world, sock, server_side=False, version=version)
+        self.tls.auto_close_reply = True  # answer the server's close_notify so that its graceful close is prompt
+
+    def write(self, data: bytes) -> None:
+        if not self.tls.closed:
+            self.tls.write(data)  # queued by the engine until the handshake is done
+
+    def fin(self) -> None:
+        if self.tls.closed:
+            return
+        if self.tls.engine.handshake_done and self.tls.engine.error is None:
+            self.tls.close(notify=True)
+        else:
+            self.tls.fin()
+
+    def reset(self) -> None:
+        self.tls.closed = True
+        assert self.sock.tx_pipe is not None and self.sock.rx_pipe is not None
+        self.sock.tx_pipe.reset()
+        self.sock.rx_pipe.reader_closed = True
+        self.world.log("peer_reset", self.sock.label)
+
+    def close(self) -> None:
+        self.tls.closed = True  # the engine stops reacting: the ClientHello already in flight is followed by FIN only
+        self.sock.close()
+
+
+class TLSTCP(Variant):
+    """AsyncTCPNetworkServer(ssl=...): healthy clients are real AsyncTCPNetworkClient(ssl=...); the faulty client is a
+    TLSPeer-driven raw peer; extra set-up faults hit the handshake"""
+
+    name = "tls"
+    setups = ("getpeername", "setsockopt", "reset", "close", "garbage", "stall", "fin_mid", "rst_mid", "garbage", "fin_mid", "rst_mid", "stall")
+    HANDSHAKE_TIMEOUT = 20.0  # virtual seconds; far above the slowest link drawn below (~6 s for a full handshake)
+    SHUTDOWN_TIMEOUT = 2.0
+    # byte offsets in the client's handshake stream: inside the record header, inside the ClientHello, around its end,
+    # inside / at the end of the client's second flight (TLS 1.3: CCS+Finished; 1.2: CKE+CCS+Finished), beyond it
+    OFFSETS = (1, 5, 60, 200, 260, 300, 340, 600)
+
+    def __init__(self, world: World):
+        super().__init__(world)
+        self.version = "1.2" if world.choose("tls.version", 2) else "1.3"
+
+    def notes(self) -> dict:
+        return {"tls_version": self.version}
+
+    def draw_link(self, world: World, net: SimNet, faulty_run: bool) -> str:
+        # a handshake moves ~3 KB: keep fragments >= 16 bytes and delays <= 2/64 s so that it always fits the timeouts
+        if not faulty_run or not world.chance("sw.link", 1, 2):
+            return "whole"
+        k = world.choose("link.frag", 3)
+        size = 0 if k == 0 else (64 + world.choose("link.size", 192) if k == 1 else 16 + world.choose("link.size", 48))
+        delays = ((0,), (1,), (0, 1, 2))[world.choose("link.delay", 3)]
+        if size:
+            world.fault("frag")
+        if delays != (0,):
+            world.fault("delay")
+        net.default_delivery = lambda name: Delivery(2 if size else 0, size or 1, delays)
+        return f"fixed={size} delays={delays}"
+
+    def server_kwargs(self) -> dict:
+        return {"ssl": make_context(True, self.version), "ssl_handshake_timeout": self.HANDSHAKE_TIMEOUT, "ssl_shutdown_timeout": self.SHUTDOWN_TIMEOUT}
+
+    def client_kwargs(self) -> dict:
+        return {"ssl": make_context(False, self.version), "server_hostname": "sim.host", "ssl_shutdown_timeout": self.SHUTDOWN_TIMEOUT}
+
+    def raw_peer(self, world: World, sock: SimSocket, plan: Plan) -> Any:
+        assert sock.tx_pipe is not None
+        if plan.setup == "garbage":
+            world.fault("tls_garbage")
+            world.probe("setup@garbage")
+            return Peer(world, sock)  # after_connect() writes the garbage
+        if plan.setup == "stall":
+            world.fault("tls_stall")
+            world.probe("setup@stall")
+            sock.tx_pipe.stall()  # the ClientHello never arrives -> handshake timeout on the server
+        elif plan.setup == "fin_mid":
+            world.probe("setup@fin_mid")
+            sock.tx_pipe.fin_at = self.OFFSETS[plan.setup_k]  # HalfPipe counts the fin_at fault when it fires
+        elif plan.setup == "rst_mid":
+            world.probe("setup@rst_mid")
+            sock.tx_pipe.rst_at = self.OFFSETS[plan.setup_k]
+        return _TLSRawPeer(world, sock, self.version)
+
+    def after_connect(self, world: World, plan: Plan, peer: Any) -> bool:
+        if plan.setup == "garbage":
+            junk = (b"GET / HTTP/1.0\r\n\r\n", b"\x16\x03\x01\x00\x05hello-not-tls", b"\x00" * 64, b"\x16\x03\x03\xff\xff" + b"A" * 40)[plan.setup_k % 4]
+            peer.write(junk)
+            return True
+        if plan.setup == "stall":
+            return True
+        return super().after_connect(world, plan, peer)
+
+    def handshake_failed(self, plan: Plan, state: dict) -> bool:
+        if plan.setup in ("getpeername", "setsockopt", "reset", "close", "garbage", "stall"):
+            return True
+        if plan.setup in ("fin_mid", "rst_mid"):
+            peer = state.get("peer")
+            tls = getattr(peer, "tls", None)
+            if tls is None:
+                return False
+            # the server can only finish after it has seen every handshake byte of the client
+            return tls.hs_end is None or tls.tx.total_visible < tls.hs_end
+        return False
+
+
+TCP_VARIANTS: dict[str, type[Variant]] = {"tcp": PlainTCP, "tls": TLSTCP}
 
 TCP_POSITIONS = {
     "coro": ("on_conn_coro", "handle_pre", "handle_nth", "handle_thrown", "on_disc"),
@@ -423,7 +556,7 @@ TCP_POSITIONS = {
 
 
 def _h_tcp(world: World, variant_name: str) -> None:
-    variant = TCP_VARIANTS[variant_name]
+    variant = TCP_VARIANTS[variant_name](world)
     family = variant.name
     net = SimNet(world)
     backend = SimAsyncIOBackend(net)
@@ -433,7 +566,8 @@ def _h_tcp(world: World, variant_name: str) -> None:
     healthy = _draw_healthy(world)
     any_fault = world.chance("any_fault", 2, 3)  # a third of the runs: no fault of any kind (baseline)
     plans = [_draw_plan(world, f"bad{i}", TCP_POSITIONS[shape], variant.setups, any_fault) for i in range(1 + world.choose("nfaulty", 2))]
-    link = _draw_link(world, net, any_fault)
+    link = variant.draw_link(world, net, any_fault)
+    world.notes.update(variant.notes())  # type: ignore[attr-defined]
     world.notes.update(variant=family, buffered=buffered, shape=shape, reqs_per_gen=reqs_per_gen, healthy=healthy, plans=[p.describe() for p in plans], link=link)  # type: ignore[attr-defined]
 
     ser = StringLineSerializer(encoding="ascii")
@@ -482,16 +616,19 @@ def _h_tcp(world: World, variant_name: str) -> None:
         except BaseException as exc:
             failures.append(_viol(family, "healthy-client-served", f"{name}: {step} failed with {type(exc).__name__}: {exc} at t={world.now}", _site(plans)))
 
+    faulty_state: dict[str, dict] = {}
+
     def run_faulty(plan: Plan, t0: float) -> float:
         """schedule the scripted faulty client; returns the virtual time at which its script has ended"""
         t = t0 + plan.start * U
         state: dict[str, Any] = {}
+        faulty_state[plan.name] = state
 
         def connect() -> None:
             lst = net.listeners[(HOST, PORT)]
             sock = net.connect_to_listener(lst, plan.name)
             handler.plans[sock.sockname[1]] = plan
-            peer = variant.raw_peer(world, sock)
+            peer = variant.raw_peer(world, sock, plan)
             state["peer"] = peer
             state["dead"] = variant.after_connect(world, plan, peer)
 
@@ -582,6 +719,12 @@ def _h_tcp(world: World, variant_name: str) -> None:
                         if pl is p:
                             port = key
                     st = handler.states.get(port)
+                    plan_failed = variant.handshake_failed(p, faulty_state[p.name])
+                    p.hs_failed = plan_failed
+                    if plan_failed:
+                        world.probe("setup_failed_connections")
+                        if st is not None and (st.entered or st.gens or st.disc):
+                            raise _viol(family, "no-hook-after-failed-setup", f"{p.describe()}: the connection set-up cannot have completed, yet on_connection entered={st.entered} handle generators={st.gens} on_disconnection calls={st.disc}", _site([p]))
                     done = bool(st and st.conn_done)
                     disc = st.disc if st else 0
                     world.probe("faulty_conn_done" if done else "faulty_conn_not_done")
@@ -782,5 +925,6 @@ def _h_udp(world: World) -> None:
 
 HARNESSES = [
     Harness("tcp", lambda w: _h_tcp(w, "tcp"), weight=2),
+    Harness("tls", lambda w: _h_tcp(w, "tls"), weight=2),
     Harness("udp", _h_udp, weight=1),
 ]
